@@ -150,8 +150,9 @@ class Intervals:
         ty = fn.locals[l]["s"]
         rng = ty_range(ty)
         if tuple_field is not None:
-            m = re.match(r"^\((\w+), (\w+)\)$", ty)
-            rng = ty_range(m.group(tuple_field + 1)) if m and tuple_field in (0, 1) else None
+            m = re.match(r"^\(([\w, ]+?),?\)$", ty)
+            parts = [x.strip() for x in m.group(1).split(",")] if m else []
+            rng = ty_range(parts[tuple_field]) if tuple_field < len(parts) else None
         if depth > 14 or key in self._busy:
             return rng                      # a loop-carried value: anything of its type
         defs = self.defs.get(l, [])
@@ -208,6 +209,8 @@ class Intervals:
             if op in ("Eq", "Ne", "Lt", "Le", "Gt", "Ge"):
                 return (0, 1)
             return arith(op, a, b)
+        if k == "aggregate" and tuple_field is not None and isinstance(rv.get("ops"), list) and tuple_field < len(rv["ops"]) and not rv.get("variant"):
+            return self.operand(rv["ops"][tuple_field], depth)      # the field of a tuple built here
         if k == "unop":
             a = self.operand(rv["a"], depth) if isinstance(rv.get("a"), dict) else None
             if rv.get("op") == "Neg" and a is not None:
